@@ -52,6 +52,9 @@ fn oracle() -> Oracle {
             if e.check != pass {
                 return fail(format!("check(): entry {} expected {} output {} gives check() = {}", s.name, e.expected.show(), e.output.show(), e.check));
             }
+            if e.value_check != (pass, pass) {
+                return fail(format!("check() of the values: OutputValue::check / ExpectedValue::check give {:?} for expected {} output {}", e.value_check, e.expected.show(), e.output.show()));
+            }
             if e.is_checked != (e.expected != V::X) {
                 return fail(format!("is_checked(): entry {} with expected {} gives {}", s.name, e.expected.show(), e.is_checked));
             }
